@@ -47,6 +47,7 @@ type Step struct {
 	Draw    *Drawing `json:"draw,omitempty"`
 	Format  string   `json:"format,omitempty"`
 	Opt     int      `json:"opt,omitempty"`
+	FailAt  int      `json:"fail_at,omitempty"` // render: the sink returns an error from the k-th Write on (0 = never)
 }
 
 // Drawing is a small canvas program rendered by the "render" operation.
@@ -109,6 +110,7 @@ type Result struct {
 	Kind  string `json:"kind"` // path | bytes | text | font | err | panic | abort | skipped
 	Hash  uint64 `json:"hash"`
 	Brief string `json:"brief"`
+	Fault bool   `json:"fault,omitempty"` // an injected sink error fired during this call
 }
 
 func (r Result) Equal(o Result) bool { return r.Kind == o.Kind && r.Hash == o.Hash }
@@ -145,6 +147,7 @@ type RunReport struct {
 	RefCPUms      float64      `json:"ref_cpu_ms"`
 	ResultHash    uint64       `json:"result_hash"` // hash over all simulation-phase results (determinism self-test)
 	Nontrivial    bool         `json:"nontrivial"`
+	SinkFaults    int          `json:"sink_faults,omitempty"`
 	LinOps        int          `json:"lin_ops,omitempty"`
 	LinConcurrent int          `json:"lin_concurrent_pairs,omitempty"`
 }
